@@ -148,19 +148,37 @@ impl ISecureFramer for LengthPrefixedFramer {
 
   fn write_msg_multipart(&mut self, msgs: FrameBatch) -> Result<Bytes, ZmqError> {
     let plaintext = self.framer.frame_contiguous(&[msgs])?;
-    let ciphertext = self.cipher.encrypt(&plaintext)?;
-    let mut out = BytesMut::with_capacity(2 + ciphertext.len());
-    out.put_u16(ciphertext.len() as u16);
-    out.extend_from_slice(&ciphertext);
-    Ok(out.freeze())
+    self.seal_records(&plaintext)
   }
 
   fn write_msg_batch(&mut self, batch: &[FrameBatch]) -> Result<Bytes, ZmqError> {
     let plaintext = self.framer.frame_contiguous(batch)?;
-    let ciphertext = self.cipher.encrypt(&plaintext)?;
-    let mut out = BytesMut::with_capacity(2 + ciphertext.len());
-    out.put_u16(ciphertext.len() as u16);
-    out.extend_from_slice(&ciphertext);
+    self.seal_records(&plaintext)
+  }
+}
+
+impl LengthPrefixedFramer {
+  /// Largest plaintext one record can carry: the record length is a u16 and covers the
+  /// 16-byte authentication tag both ciphers append.
+  const MAX_RECORD_PLAINTEXT: usize = u16::MAX as usize - 16;
+
+  /// Encrypts `plaintext` as one or more length-prefixed records. The reader appends every
+  /// decrypted record to one stream before it parses frames, so a large message - or a write
+  /// batch of several messages - may be cut anywhere.
+  fn seal_records(&mut self, plaintext: &[u8]) -> Result<Bytes, ZmqError> {
+    let records = plaintext.len() / Self::MAX_RECORD_PLAINTEXT + 1;
+    let mut out = BytesMut::with_capacity(plaintext.len() + records * 18);
+    let mut rest = plaintext;
+    loop {
+      let (chunk, tail) = rest.split_at(rest.len().min(Self::MAX_RECORD_PLAINTEXT));
+      let ciphertext = self.cipher.encrypt(chunk)?;
+      out.put_u16(ciphertext.len() as u16);
+      out.extend_from_slice(&ciphertext);
+      rest = tail;
+      if rest.is_empty() {
+        break;
+      }
+    }
     Ok(out.freeze())
   }
 }
